@@ -89,9 +89,13 @@ theorem end_to_end_fields_preserved (s : CacheStatus) (f : Freshness) (now : Int
   · rw [Header.values_del_other _ _ _ (Ne.symm h3), Header.values_set_other _ _ _ _ (Ne.symm h2),
         Header.values_set_other _ _ _ _ (Ne.symm h1), base]
 
-/-- entries read back from the store never carry hop-by-hop fields either (ParseResponse strips
-    what the serialisation itself may have added, e.g. `Connection: close`) -/
-theorem parsed_entry_has_no_hop_by_hop (e : Entry) (n : Str) (hn : n ∈ hopByHopHeaders e.resp.header) :
-    Header.has (parsedEntry e).resp.header n = false := hop_by_hop_removed e.resp.header n hn
+/-- reading an entry back (ParseResponse) drops the Connection field — the serialisation's own
+    `Connection: close` of an HTTP/1.0 entry — and nothing else: every other field, one literally named
+    `Close` included, comes back with exactly its stored values (the hop-by-hop fields of the origin's
+    response were removed before storing, `stored_entry_is_origin_minus_hop`) -/
+theorem parsed_entry_drops_only_connection (e : Entry) :
+    Header.has (parsedEntry e).resp.header sConnection = false ∧
+    ∀ n, n ≠ sConnection → Header.values (parsedEntry e).resp.header n = Header.values e.resp.header n :=
+  ⟨Header.has_del_self _ _, fun n hn => Header.values_del_other _ _ _ (Ne.symm hn)⟩
 
 end Httpcache.C05
